@@ -81,7 +81,9 @@ def _run_chunk(prop, base_seed, start, count, opts):
         "t": 0.0,
     }
     t0 = time.time()
-    for r in range(start, start + count):
+    im = opts.get("index_map")
+    for r0 in range(start, start + count):
+        r = im[0] + r0 * im[1] if im else r0
         seed = derive(base_seed, prop, r)
         try:
             spec = mod.gen_spec(seed, **opts.get("gen_kwargs", {}))
@@ -117,6 +119,10 @@ def _run_chunk(prop, base_seed, start, count, opts):
         if time.time() - t0 > opts.get("chunk_budget", 1e9):
             break
     faulthandler.cancel_dump_traceback_later()
+    if hasattr(mod, "worker_refs") and os.environ.get("VERIF_REF_DUMP"):
+        os.makedirs(os.environ["VERIF_REF_DUMP"], exist_ok=True)
+        with open(os.path.join(os.environ["VERIF_REF_DUMP"], f"{os.getpid()}.json"), "w") as f:
+            json.dump(mod.worker_refs(), f)
     agg["t"] = time.time() - t0
     agg["probes"] = dict(agg["probes"])
     agg["faults"] = dict(agg["faults"])
@@ -216,14 +222,30 @@ def write_replay(prop, seed, m, hashseed=None):
     return path
 
 
-def in_scratch(fn):
-    """Run fn() with a private scratch cwd (minimisation / replay in the parent process)."""
+def in_scratch(fn, quiet=True):
+    """Run fn() with a private scratch cwd (minimisation / replay in the parent process).
+    The code under test reports every skipped queue line on stderr and through warnings: silenced here."""
+    import warnings
+
     scratch = make_scratch()
     old = os.getcwd()
     os.chdir(scratch)
+    saved_fd = None
+    if quiet:
+        sys.stderr.flush()
+        saved_fd = os.dup(2)
+        dn = os.open(os.devnull, os.O_WRONLY)
+        os.dup2(dn, 2)
+        os.close(dn)
     try:
-        return fn()
+        with warnings.catch_warnings():
+            warnings.simplefilter("ignore")
+            return fn()
     finally:
+        if saved_fd is not None:
+            sys.stderr.flush()
+            os.dup2(saved_fd, 2)
+            os.close(saved_fd)
         os.chdir(old)
         shutil.rmtree(scratch, ignore_errors=True)
 
